@@ -9,6 +9,8 @@ L ::= ("int",) | ("str",) | ("any",) | ("none",)
     | ("arr", cat, spec)           cat[np.ndarray, spec]
     | ("arrnode", cat, spec)       cat[NodeArr, spec] - NodeArr is an array-like that is ALSO a PyTree node
     | ("pytree", L)                PyTree[L] (structure-less, nested)
+    | ("spytree", L, name, n)      PyTree[L, name] (structured, nested); values are n-tuples of L, so that the
+                                   structure bound to `name` is the same wherever it occurs
 """
 
 from __future__ import annotations
@@ -71,7 +73,17 @@ def build(L, cache=None):
         return getattr(jaxtyping, L[1])[jaxtyping.Shaped[np.ndarray, L[3]], L[2]]
     if k == "pytree":
         return jaxtyping.PyTree[build(L[1])]
+    if k == "spytree":
+        return jaxtyping.PyTree[build(L[1]), L[2]]
     raise AssertionError(L)
+
+
+STRUCT_KEY = "\0struct:"
+
+
+def split_structs(s):
+    """-> (axis bindings, {structure name: structure}) of a model axis dict"""
+    return {k: x for k, x in s.items() if not k.startswith(STRUCT_KEY)}, {k[len(STRUCT_KEY):]: x for k, x in s.items() if k.startswith(STRUCT_KEY)}
 
 
 class Annot(Exception):
@@ -131,6 +143,32 @@ def matches(x, L, s, v, flatten, label=None, nested_struct=False):
         if vd == "annot":
             raise Annot(why)
         raise Open(why)
+    if k == "spytree":
+        # a structured PyTree in the leaf type: beneath it a '?' axis belongs to IT - unless an enclosing structured
+        # PyTree already gave a leaf position (label), in which case '?' is ambiguous (same verdict as 'outside')
+        from . import trees as TM
+
+        if x is None:
+            return True, s, v
+        inner = L[1]
+        isl = lambda y: matches(y, inner, {}, {}, True)[0]
+        s1, v1 = s, v
+        if not flatten:
+            # the structure name is bound like an axis name: first use binds, later uses must agree; kept in the
+            # axis dict under a key no axis can have, so that a failing leaf / alternative rolls it back with the rest
+            key = STRUCT_KEY + L[2]
+            st = TM.struct(x, isl if inner[0] != "any" else None)
+            if key in s1:
+                if s1[key] != st:
+                    return False, s, v
+            else:
+                s1 = dict(s1)
+                s1[key] = st
+        for li, leaf in enumerate(TM.leaves(x, isl if inner[0] != "any" else None)):
+            ok, s1, v1 = matches(leaf, inner, s1, v1, flatten, None if label is not None else f"<{L[2]}#{li}>")
+            if not ok:
+                return False, s, v
+        return True, s1, v1
     if k == "pytree":
         from . import trees as TM
 
@@ -152,7 +190,7 @@ def has_array(L):
         return True
     if L[0] in ("tuple", "union", "pep604"):
         return any(has_array(x) for x in L[1])
-    if L[0] in ("optional", "pytree"):
+    if L[0] in ("optional", "pytree", "spytree"):
         return has_array(L[1])
     return False
 
@@ -177,3 +215,5 @@ def show(L):
         return f"{L[1]}[Shaped[ndarray, {L[3]!r}], {L[2]!r}]"
     if k == "pytree":
         return f"PyTree[{show(L[1])}]"
+    if k == "spytree":
+        return f"PyTree[{show(L[1])}, {L[2]!r}]"
